@@ -230,8 +230,6 @@ class Interpreter(BaseInterpreter[TContext, TEvent]):
 
         logger.info("🏁 Starting interpreter '%s'...", self.id)
         self.status = "running"
-        # 🌀 Launch the main event loop as a background task.
-        self._event_loop_task = asyncio.create_task(self._run_event_loop())
 
         try:
             # 🔔 Notify plugins that the interpreter is starting.
@@ -253,6 +251,22 @@ class Interpreter(BaseInterpreter[TContext, TEvent]):
             # unrelated event happened to nudge it. `start()` must return a
             # settled configuration in BOTH engines.
             await self._settle_transient_transitions()
+
+            # 🌀 Launch the main event loop as a background task -- only now.
+            #
+            # 🏛️ Architecture decision: the initial entry and its eventless
+            #    transitions are a macrostep of their own, run by `start()`
+            #    itself. While the consumer task already existed, any
+            #    suspension inside that macrostep (an awaited entry action,
+            #    arming a timer) let the consumer dequeue an event an entry
+            #    action had raised and run a SECOND macrostep in the middle of
+            #    the first: two children of one compound state active, exit
+            #    actions run twice. Events raised during the initial entry
+            #    simply wait in the queue and are processed, in order, as soon
+            #    as the consumer starts -- which is run-to-completion.
+            self._event_loop_task = asyncio.create_task(
+                self._run_event_loop()
+            )
 
             logger.info(
                 "✅ Interpreter '%s' started successfully. Current states: %s",
